@@ -14,19 +14,26 @@ PROP = 'C07'
 LEVEL = 'proof'
 PROPS_MODULES = ['RTV.Props.C07']
 GEN = ['chartables', 'dtmaps']
-REQUIRED_THEOREMS = ['clock24', 'clock24_partial', 'clock24_hour0_unresolved', 'clock24_hour0_repaired', 'clock12', 'clock12_partial',
-                     'ambiguous_two_readings', 'date_at_time', 'date_at_time_unambiguous', 'date_at_time_ambiguous', 'toPm_twelve_apart',
-                     'short_time_shape']
+REQUIRED_THEOREMS = ['clock24', 'clock24_partial', 'clock24_hour0_unresolved', 'clock24_hour0_repaired', 'clock12',
+                     'clock12_partial', 'ambiguous_two_readings', 'date_at_time', 'date_at_time_unambiguous',
+                     'date_at_time_ambiguous', 'toPm_twelve_apart', 'short_time_shape', 'clock_cultures',
+                     'date_at_time_cultures', 'designator_cultures', 'afternoon_12_both_readings', 'afternoon_12_repaired',
+                     'clock24_zh', 'zh_ampm_any_hour_witness', 'zh_1913_guarded', 'zh_designator_examples']
 RULE = ('unit: DateTimeFormatUtil over full ranges (luis_time/short_time 24x60x{none,0..59}, luis_date, format_*, '
         'to_pm, all_str_to_pm); match_to_time on every match of AtRegex/TimeRegex1..11/ConnectNumRegex over generated '
         'English time strings (digits x minutes x seconds x am/pm spellings x prefixes x suffixes x written forms); '
         '_date_time_resolution on synthetic slots; merge_date_and_time on <date> at <time>. pipeline: HH:MM:SS '
         '(thorough all 86,400; quick boundary set {0,1,9,10,11,12,13,23}x{0,1,30,59}x{none,0,59} + 3,000 seeded), H:MM, '
-        '12-hour spellings x {am,pm,a.m.,p.m.,none}, <date expr> at <time> x references; non-trivial = distinct case with '
-        'a resolved time/datetime entity')
-ASSUMPTIONS = ['group values and regex outcomes (desc/prefix/suffix classification) are inputs of the model, the regex '
-               'engine is not modelled', 'str.isspace/isnumeric and Unicode decimal values exported from the running CPython',
-               'adjust_by_prefix/adjust_by_suffix are modelled for English only; other cultures reach the pipeline oracle only']
+        '12-hour spellings x {am,pm,a.m.,p.m.,none}, <date expr> at <time> x references; contracts/C07.json: 24-hour and '
+        'am/pm-designator spellings of es, es-mx, fr, pt, it, de, nl, zh (every hour 1..12 x clock forms x designators); unit: '
+        'match_to_time incl. adjust_by_prefix/suffix on real matches of every culture (Specs texts with every hour substituted), '
+        'ChineseTimeParser.parse on ~4k extractor results; non-trivial = distinct case with a resolved time/datetime entity')
+ASSUMPTIONS = ['group values and regex outcomes (desc/prefix/suffix classification, token regexes of German/Dutch) are inputs '
+               'of the model, the regex engine is not modelled',
+               'str.isspace/isnumeric and Unicode decimal values exported from the running CPython',
+               'adjust_by_prefix/adjust_by_suffix of all eight BaseTimeParser cultures are modelled as data-driven styles whose '
+               'phrase literals are hand-copied from the code and tied by unit correspondence',
+               'ChineseTimeParser: handle_digit/handle_chinese/add_description/pack_time_result modelled, handle_less not']
 
 REFS = [(2016, 11, 7, 0, 0, 0), (2016, 11, 7, 10, 30, 0), (2020, 2, 29, 23, 59, 59), (1950, 1, 1, 12, 0, 0),
         (2089, 12, 31, 6, 7, 8)]
